@@ -116,6 +116,38 @@ type Outcome struct {
 	Digest string
 }
 
+// NonTrivial reports whether the variant did real work: at least one package was executed (or one
+// universe/inflector request served) and, if a fault was planned for a run, it fired or killed the process.
+func (o *Outcome) NonTrivial(variant string) bool {
+	steps, ok := o.Records[variant]
+	if !ok {
+		return false
+	}
+	work := false
+	for _, st := range steps {
+		if st.Op.Run == nil {
+			continue
+		}
+		if len(st.Executed) > 0 || st.Killed {
+			work = true
+		}
+		if len(st.Op.Run.Faults) > 0 && !st.Killed && (st.Resp == nil || len(st.Resp.Fired) == 0) {
+			return false
+		}
+	}
+	return work
+}
+
+// AnyNonTrivial reports whether any variant of the outcome was non-trivial.
+func (o *Outcome) AnyNonTrivial() bool {
+	for v := range o.Records {
+		if v != "setup" && o.NonTrivial(v) {
+			return true
+		}
+	}
+	return false
+}
+
 // digestRecords hashes the step records of all variants in a canonical order.
 func digestRecords(records map[string][]*StepRecord) string {
 	h := sha256.New()
